@@ -69,5 +69,32 @@ theorem C13_commit {St K : Type} (f : Goal St K) (r : List (Goal St K)) (cs : Li
     Goal.condaOfClauses ((f :: r) :: cs) = .conda f (Goal.conjOfList r) (Goal.condaOfClauses cs) ∧
     Goal.conduOfClauses ((f :: r) :: cs) = .condu f (Goal.conjOfList r) (Goal.conduOfClauses cs) := ⟨rfl, rfl⟩
 
+/-- COMPOUND PATTERNS are patterns like any other (the theorems above quantify over ALL surface terms, `comp`
+    included): the compound pattern `P(x, _, x)` denotes a compound value of type `P` whose first and third field
+    are the same value, the second anything — -/
+theorem C13_compound_pattern (ρ : NValu) (g : Nat) (x : Name) (v : Term) :
+    DenT ρ (.comp g (.cons (.var x) (.cons .any (.cons (.var x) .nil)))) v ↔
+      ∃ w, v = .comp g (.cons (ρ x) (.cons w (.cons (ρ x) .nil))) := by
+  constructor
+  · intro h
+    cases h with
+    | comp h1 =>
+      cases h1 with
+      | cons ha hb =>
+        cases ha
+        cases hb with
+        | cons hc hd =>
+          cases hd with
+          | cons he hf =>
+            cases he; cases hf
+            exact ⟨_, rfl⟩
+  · rintro ⟨w, rfl⟩
+    exact .comp (.cons (.var x) (.cons (.any w) (.cons (.var x) .nil)))
+
+/-- — and its elaboration allocates ONE variable for the repeated name and one for the `_` -/
+example : (elabT (bindAll (fun _ => 0) (STerm.comp 1 (.cons (.var 5) (.cons .any (.cons (.var 5) .nil)))).names 10)
+    (.comp 1 (.cons (.var 5) (.cons .any (.cons (.var 5) .nil)))) 11) =
+    (.comp 1 (.cons (.var 10) (.cons (.var 11) (.cons (.var 10) .nil))), 12) := by decide
+
 end Surface
 end Pv
